@@ -131,6 +131,34 @@ Definition qex_sched : list (nat * bool) :=
    (1%nat, true); (4%nat, true); (4%nat, true)].
 Definition qex_state : qsys := fst (fst (qrun P_queue.code (gen_qinit 1 qex_scripts) qex_sched)).
 
+(* boolean version of the "counters below SEM_VALUE_MAX" side condition, for closed examples *)
+Definition qsmallb (g : qsys) : bool := forallb (fun s => val s <? QSVM) (qsems g).
+
+Lemma qsmallb_ok : forall g, qsmallb g = true -> qsmall g.
+Proof.
+  intros g H. unfold qsmallb in H. rewrite forallb_forall in H.
+  assert (G : forall k, qv k g < QSVM).
+  { intros k. unfold qv. destruct (nth_in_or_default k (qsems g) dsem) as [Hin|Hd].
+    - specialize (H _ Hin). lia.
+    - rewrite Hd. cbn. unfold QSVM. lia. }
+  unfold qsmall. repeat split; auto.
+Qed.
+
+Fixpoint gen_qrun_smallb (g : qsys) (sched : list (nat * bool)) : bool :=
+  qsmallb g &&
+  match sched with
+  | [] => true
+  | (i, go) :: r =>
+    match qstep P_queue.code g i go with Some (g1, _) => gen_qrun_smallb g1 r | None => true end
+  end.
+
+Lemma gen_qrun_smallb_ok : forall sched g, gen_qrun_smallb g sched = true -> gen_qrun_small g sched.
+Proof.
+  induction sched as [|[i go] sched IH]; intros g H; cbn [gen_qrun_smallb gen_qrun_small] in *;
+    apply andb_prop in H; destruct H as [A B]; (split; [apply qsmallb_ok; auto|]); auto.
+  destruct (qstep P_queue.code g i go) as [[g1 e]|]; auto.
+Qed.
+
 Lemma qex_witness :
   QReach 1 qex_state /\ qv 0 qex_state = 0 /\ getlog qex_state = [11] /\ sendlog qex_state = [11] /\
   sumz qt_tr (qthr qex_state) = 1 /\ pipe qex_state = [].
@@ -140,7 +168,7 @@ Proof.
     destruct (qrun P_queue.code (gen_qinit 1 qex_scripts) qex_sched) as [[g es] ok] eqn:E.
     exists es, ok. split; [lia|]. split; [|split].
     + repeat constructor; unfold okq; cbn; lia.
-    + vm_compute. repeat split.
+    + apply gen_qrun_smallb_ok. vm_compute. reflexivity.
     + unfold qex_state. rewrite E. reflexivity.
   - vm_compute. repeat split.
 Qed.
